@@ -308,6 +308,134 @@ func vExpectNotFound(b *vBlock, st *vStats, sink vSink, svc *blob.Service, ns li
 	}
 }
 
+// ---------------------------------------------------------------- the namespace-count ladder
+
+// vLadderBlock: one small blob (every fifth namespace: two blobs, every seventh: a 3-share blob) in
+// each of n distinct namespaces, appended in an order that is not the namespace order.
+func vLadderBlock(n int, reverse bool) (*vBlock, error) {
+	spec := vBlockSpec{Txs: 1}
+	sizes := []string{"1B", "S+1", "S"}
+	for i := 0; i < n; i++ {
+		k := (i*7 + 3) % n // a permutation of 0..n-1 whenever gcd(7,n) == 1
+		if reverse {
+			k = n - 1 - i
+		}
+		b := vBlobSpec{NS: fmt.Sprintf("N%02d", k), Ver: k % 2, Size: sizes[k%3]}
+		if k%7 == 0 {
+			b.Size = "3S"
+		}
+		spec.Blobs = append(spec.Blobs, b)
+		if k%5 == 0 {
+			b.Var = 1
+			spec.Blobs = append(spec.Blobs, b)
+		}
+	}
+	return vBuildBlock(spec, 1)
+}
+
+// vCheckLadder: GetAll with 1, 2, 3, ... namespaces in ONE call (populated namespaces with absent
+// ones interleaved) must return exactly the concatenation, in request order, of every requested
+// namespace's blobs. It returns the number of GetAll calls and of namespace listings requested.
+func vCheckLadder(tier string, st *vStats, sink vSink) (calls, listings, squares int) {
+	ctx := context.Background()
+	n, reverse := 41, []bool{false}
+	if tier == "thorough" {
+		n, reverse = 71, []bool{false, true}
+	}
+	for _, rev := range reverse {
+		b, err := vLadderBlock(n, rev)
+		if err != nil {
+			sink("C11/GetAllLadder/harness", "cannot build the ladder block: "+err.Error(), nil)
+			return
+		}
+		squares++
+		svc := vNewBlobService(vNewGetter(b))
+		rp := func(list string, k int) any {
+			return map[string]any{"check": "C11/ladder", "spec": tier, "list": list, "namespaces": k, "block": b.Spec.String()}
+		}
+		// the request list: every populated namespace, an absent one after every fourth
+		var base []libshare.Namespace
+		for k := 0; k < n; k++ {
+			base = append(base, vNS[fmt.Sprintf("N%02d", k)])
+			if k%4 == 1 {
+				base = append(base, vLadderAbsent[k])
+			}
+		}
+		lists := map[string][]libshare.Namespace{"ascending": base}
+		order := []string{"ascending"}
+		perm := func(name string, f func(i int) int) {
+			l := make([]libshare.Namespace, len(base))
+			for i := range base {
+				l[i] = base[f(i)]
+			}
+			lists[name] = l
+			order = append(order, name)
+		}
+		perm("descending", func(i int) int { return len(base) - 1 - i })
+		if tier == "thorough" {
+			for _, stride := range []int{3, 5, 11} {
+				if len(base)%stride == 0 {
+					stride += 2
+				}
+				st := stride
+				perm(fmt.Sprintf("stride-%d", st), func(i int) int { return (i * st) % len(base) })
+			}
+		}
+		for _, name := range order {
+			l := lists[name]
+			// quick: every prefix of the ascending list, the full descending list and its prefixes
+			// around the sizes 8, 16, 32; thorough: every prefix of every list
+			for k := 1; k <= len(l); k++ {
+				if tier != "thorough" && name != "ascending" && k != len(l) && !(k >= 7 && k <= 9) && !(k >= 15 && k <= 18) && !(k >= 31 && k <= 34) {
+					continue
+				}
+				req := l[:k]
+				var want []*vRefBlob
+				for _, ns := range req {
+					want = append(want, b.refsOf(ns)...)
+				}
+				var got []*blob.Blob
+				var err error
+				calls++
+				listings += k
+				if p := vCatch(func() { got, err = svc.GetAll(ctx, b.Height, req) }); p != "" {
+					st.out("GetAllLadder:panic")
+					sink("C11/GetAllLadder/panic", fmt.Sprintf("GetAll with the first %d namespaces of the %s list panicked: %s", k, name, p), rp(name, k))
+					continue
+				}
+				if err != nil {
+					st.out("GetAllLadder:error")
+					sink("C11/GetAllLadder/error", fmt.Sprintf("GetAll with the first %d namespaces of the %s list failed: %v", k, name, err), rp(name, k))
+					continue
+				}
+				bad := ""
+				switch {
+				case len(got) < len(want):
+					bad = fmt.Sprintf("missing: %d blobs returned, the requested namespaces hold %d", len(got), len(want))
+				case len(got) > len(want):
+					bad = fmt.Sprintf("extra: %d blobs returned, the requested namespaces hold %d", len(got), len(want))
+				default:
+					for i := range want {
+						if f := vBlobMismatch(got[i], want[i], map[int]bool{want[i].EDSIndex: true}); f != "" {
+							bad = fmt.Sprintf("misplaced: position %d of the answer should be %v (namespace %s) but differs in %s", i, want[i].Spec, want[i].Spec.NS, f)
+							break
+						}
+					}
+				}
+				if bad != "" {
+					st.out("GetAllLadder:wrong")
+					sink("C11/GetAllLadder/"+strings.SplitN(bad, ":", 2)[0], fmt.Sprintf("GetAll(height, first %d namespaces of the %s list: %d populated + absent ones interleaved) - %s; block of %d namespaces, %d blobs, ODS width %d",
+						k, name, n, bad, n, len(b.Refs), b.W), rp(name, k))
+					continue
+				}
+				st.out("GetAllLadder:exact")
+				st.hist("ladder_namespaces_per_call", fmt.Sprint(k))
+			}
+		}
+	}
+	return calls, listings, squares
+}
+
 // ---------------------------------------------------------------- the state space
 
 type vFamily struct {
@@ -611,6 +739,19 @@ func TestVerifC11(t *testing.T) {
 		}
 	}
 
+	// the namespace-count ladder (two squares at most, built once each)
+	{
+		t0 := time.Now()
+		lc, ll, sq := vCheckLadder(rep.Tier, st, rep.Violation)
+		ladderSecs := time.Since(t0).Seconds()
+		calls += int64(lc)
+		evals += int64(lc)
+		states += int64(sq)
+		nontrivial += int64(sq)
+		rep.Set("ladder", map[string]any{"getall_calls": lc, "namespace_listings": ll, "squares": sq, "seconds": ladderSecs,
+			"namespaces_per_call": "1..N for every prefix of the ascending request list (41 populated namespaces quick / 71 thorough, an absent one after every fourth); descending and (thorough) strided permutations"})
+	}
+
 	fams := vC11Families(rep.Tier)
 	for fi := range fams {
 		fam := &fams[fi]
@@ -754,6 +895,8 @@ func vReplay(t *testing.T, rep *vx.Report, path string) {
 			}
 		}
 		switch doc.Replay.Check {
+		case "C11/ladder":
+			vCheckLadder(doc.Replay.Spec, newVStats(), sink)
 		case "C11":
 			spec, err := vParseBlockSpec(doc.Replay.Spec)
 			if err != nil {
